@@ -165,8 +165,10 @@ DefineUnit(s, sc, px, d) ==
      ELSE /\ DoAdd(s, sc, px, d) /\ last' = Ok
 
 (* Unit(str, registry=r) : memo hit first, else evaluate atoms with write-back, then memoise *)
-Construct(p) ==
-  /\ Log([op |-> "unit", str |-> p])
+\* (ConstructAs: the same resolution reached through another public call - unyt_quantity(v, str, registry=r),
+\*  x.to(str), x.convert_to_units(str) - logged under that call's own event; used by Session.tla)
+ConstructAs(ev, p) ==
+  /\ Log(ev)
   /\ UNCHANGED <<user, edit>>
   /\ IF ucache[p] # None THEN /\ last' = ucache[p] /\ UNCHANGED <<lut, ucache>>
      ELSE LET e == Eval(lut, Atoms(p), 1, <<>>, <<>>) IN
@@ -175,6 +177,7 @@ Construct(p) ==
              THEN LET u == [k |-> "unit", s |-> CombineS(p, e.s), d |-> CombineD(p, e.d)] IN
                   /\ ucache' = [ucache EXCEPT ![p] = u] /\ last' = u
              ELSE /\ last' = Raise /\ UNCHANGED ucache
+Construct(p) == ConstructAs([op |-> "unit", str |-> p], p)
 
 (* Calls that the property says cannot matter for later resolutions: printing, hashing or copying a Unit object that *)
 (* already exists (str, repr, hash, copy(), copy(deep=True), pickle round trip of the unit).  In the specification    *)
